@@ -22,7 +22,7 @@ TIERS = {
     'quick': {'workers': 8, 'cases': 750, 'timeout': 600},
     'thorough': {'workers': 16, 'cases': 7000, 'timeout': 3000},
 }
-REQUIRED_BUCKETS = ['search:package-moved-on-python-path', 'tree:depth3+', 'tree:file-included-twice', 'tree:same-include-twice-in-one-text', 'tree:fanout2+', 'conflict:before-include', 'conflict:after-include', 'conflict:between-includes',
+REQUIRED_BUCKETS = ['search:package-moved-on-python-path', 'search:namespace-directory-on-python-path', 'tree:depth3+', 'tree:file-included-twice', 'tree:same-include-twice-in-one-text', 'tree:fanout2+', 'conflict:before-include', 'conflict:after-include', 'conflict:between-includes',
                     'search:first-location-wins', 'search:later-location', 'search:reader-order-decides', 'search:memory-reader', 'search:absolute-name',
                     'search:package-slash', 'search:package-dot', 'missing:include', 'missing:top-level', 'imports:per-file', 'entry:parse_config_file',
                     'entry:files_and_bindings', 'entry:parse_config-with-include', 'finalize:true', 'finalize:false', 'finalize:default', 'extra-bindings:none', 'extra-bindings:empty-list', 'extra-bindings:empty-string', 'extra-bindings:string', 'unknown:raises', 'unknown:skipped', 'unknown:skipped-by-list', 'unknown:in-included-file', 'unknown:raises-not-in-list',
@@ -93,6 +93,10 @@ def gen_file(rng, fid, depth, maxdepth, state):
 
 def iter_cases(ctx, rng, n):
   for i in range(n):
+    if i % 50 == 13:
+      yield {'kind': 'namespace-directory', 'form': rng.choice(['slash', 'dot']), 'via': rng.choice(['parse_config_file', 'include']),
+             'where': rng.choice(['nowhere', 'later-location', 'in-the-directory'])}
+      continue
     if i % 50 == 31:
       yield {'kind': 'package-moved', 'form': rng.choice(['slash', 'dot']), 'via': rng.choice(['parse_config_file', 'include']), 'end': rng.choice(['moved', 'removed'])}
       continue
@@ -329,11 +333,60 @@ def run_package_moved(ctx, case):
     gin.clear_config()
 
 
+def run_namespace_directory(ctx, case):
+  """A relative name whose directory also exists (without __init__.py) under an entry of the Python path: a namespace package. The name is
+  still searched through the locations in order and, when nobody has it, reported by an IOError."""
+  import importlib
+  import gin
+  from gin import config as gc
+  gin.clear_config()
+  _S['nsn'] = _S.get('nsn', 0) + 1
+  ns = 'vfns%d_%s' % (_S['nsn'], ctx.uid)
+  root = os.path.join(_S['root'], 'ns%d' % _S['nsn'])
+  pyroot, loc = os.path.join(root, 'py'), os.path.join(root, 'L1')
+  os.makedirs(os.path.join(pyroot, ns, 'sub'))
+  os.makedirs(os.path.join(loc, ns, 'sub'))
+  open(os.path.join(pyroot, ns, 'sub', 'present.gin'), 'w').write("c14f.a = 'in-namespace-directory'\n")
+  open(os.path.join(loc, ns, 'sub', 'late.gin'), 'w').write("c14f.a = 'in-later-location'\n")
+  fname = {'nowhere': 'nope.gin', 'later-location': 'late.gin', 'in-the-directory': 'present.gin'}[case['where']]
+  name = ('%s/sub/%s' if case['form'] == 'slash' or case['where'] == 'later-location' else '%s.sub/%s') % (ns, fname)
+  ctx.bucket('search:namespace-directory-on-python-path')
+  sys.path.insert(0, pyroot)
+  importlib.invalidate_caches()
+  gc._LOCATION_PREFIXES[:] = ['', loc]
+  try:
+    try:
+      if case['via'] == 'include':
+        gin.parse_config("include '%s'\n" % name)
+      else:
+        gin.parse_config_file(name)
+      got = gin.query_parameter('c14f.a')
+    except IOError as e:
+      got = 'IOError'
+    except Exception as e:  # pylint: disable=broad-except
+      got = 'raised %s: %s' % (type(e).__name__, str(e)[:120])
+    want = {'nowhere': 'IOError', 'later-location': 'in-later-location', 'in-the-directory': 'in-namespace-directory'}[case['where']]
+    ctx.check(got == want, 'missing-file-not-IOError' if case['where'] == 'nowhere' else 'package-relative-name-resolved-elsewhere',
+              'name %s (its directory is a namespace package on the Python path; the file is %s): got %r, expected %r' % (name.replace(ns, 'NS'), case['where'], got, want))
+    ctx.fp('namespace-directory', case['form'], case['via'], case['where'])
+  finally:
+    gc._LOCATION_PREFIXES[:] = ['']
+    if pyroot in sys.path:
+      sys.path.remove(pyroot)
+    for m in [m for m in sys.modules if m == ns or m.startswith(ns + '.')]:
+      del sys.modules[m]
+    shutil.rmtree(root, ignore_errors=True)
+    importlib.invalidate_caches()
+    gin.clear_config()
+
+
 def run_case(ctx, case):
   import gin
   from gin import config as gc
   if case.get('kind') == 'package-moved':
     return run_package_moved(ctx, case)
+  if case.get('kind') == 'namespace-directory':
+    return run_namespace_directory(ctx, case)
   gin.clear_config()
   w = World(case)
   try:
